@@ -48,8 +48,8 @@ def f32eq(printed, bits):
     return rustdbg.f32_equal(printed, bits)
 
 
-def mtrl_case(ctx, rng):
-    mode = rng.choice(["none", "none4", "legacy", "legacy+dye", "dt", "dt+dye", "legacy42", "opaque", "short"])
+def gen_material(rng, mode=None):
+    mode = mode or rng.choice(["none", "none4", "legacy", "legacy+dye", "dt", "dt+dye", "legacy42", "opaque", "short"])
     m = dict(textures=[name(rng, 3, 40) + b".tex" for _ in range(rng.choice([0, 1, 2, 4, 6]))],
              uv_sets=[(name(rng, 1, 8), rng.randrange(4)) for _ in range(rng.choice([0, 1, 2]))],
              color_sets=[(name(rng, 1, 8), rng.randrange(4)) for _ in range(rng.choice([0, 1]))],
@@ -89,6 +89,11 @@ def mtrl_case(ctx, rng):
     m["samplers"] = [(rng.choice(list(mtrl.USAGES)), rng.getrandbits(32), rng.randrange(256), rng.randrange(256), rng.randrange(256), rng.randrange(256))
                      for _ in range(rng.choice([0, 1, 2, 5]))]
     m["mat_flags"] = rng.getrandbits(32)
+    return m, mode, rows, dye
+
+
+def mtrl_case(ctx, rng):
+    m, mode, rows, dye = gen_material(rng)
     data = mtrl.build(m)
     f = ctx.write("m.mtrl", data)
     ctx.case(digest(data), rows is not None or bool(m["constants"]), ["mtrl", "mtrl-mode:" + mode, "mtrl-tex:%d" % len(m["textures"]), "mtrl-heap:" + ("permuted" if m.get("heap_order") else "sequential")],
@@ -187,7 +192,7 @@ def gen_param(rng):
     return dict(id=rng.getrandbits(32), name=name(rng, 1, 16), slot=rng.randrange(32), size=rng.choice([0, 4, 16, 64]), unknown=rng.getrandbits(16))
 
 
-def shpk_case(ctx, rng):
+def gen_package(rng):
     nsys, nscene, nmat = rng.choice([0, 1, 2]), rng.choice([0, 1, 3]), rng.choice([0, 1, 2])
     def sh(is_v):
         return dict(code=rng.randbytes(rng.choice([0, 1, 9, 40, 200])), extra=rng.randbytes(8), scalars=[gen_param(rng) for _ in range(rng.choice([0, 1, 2]))],
@@ -209,6 +214,11 @@ def shpk_case(ctx, rng):
              textures=[gen_param(rng) for _ in range(rng.choice([0, 1]))], uavs=[gen_param(rng) for _ in range(rng.choice([0, 0, 1]))],
              sys_keys=[(rng.getrandbits(32), rng.getrandbits(32)) for _ in range(nsys)], scene_keys=[(rng.getrandbits(32), rng.getrandbits(32)) for _ in range(nscene)],
              mat_keys=[(rng.getrandbits(32), rng.getrandbits(32)) for _ in range(nmat)], sub1=rng.getrandbits(32), sub2=rng.getrandbits(32), nodes=nodes, aliases=aliases)
+    return p, nodes, aliases, sels, nnodes
+
+
+def shpk_case(ctx, rng):
+    p, nodes, aliases, sels, nnodes = gen_package(rng)
     slack = rng.choice([0, 0, 0, 16])
     data, info = shpk.build(p, slack)
     f = ctx.write("s.shpk", data)
